@@ -30,7 +30,10 @@ pub fn group_spec(seed: u64, g: u64, layouts_per_kind: u64, small: bool) -> Grou
     debug_assert!(li < layouts_per_kind);
     // the layout depends on (kind, li) only, so that all pairs of one layout share the sender
     let mut rng = Rng::new(mix(seed, 0xE17, (g % KINDS.len() as u64) * 1000 + li));
-    let sender = Lay::random(&mut rng, small);
+    let mut sender = Lay::random(&mut rng, small);
+    // optional parts (BDDKey's GLWE switching key) are present for every other capacity pair, so that even a
+    // single-layout tier enumerates the presence tag in both states
+    sender.ks_glwe = (rest % PAIRS.len() as u64) % 2 == 0;
     let mut rng2 = Rng::new(mix(seed, 0xE18, g));
     let (receiver, shrink) = match pair {
         "same" => (sender.clone(), 0),
